@@ -11,6 +11,7 @@ list `delta_chunks(tick, base, data, crc)` is remembered.  Afterwards
 * `e <tick> <dt>`                          feed a `SnapEmpty`
 * `s <tick> <dt> <crc> <data>`             feed a `SnapSingle`
 * `m <tick> <dt> <num_parts> <part> <crc> <data>`   feed a `Snap`
+* `pg <i> <dcrc> <ddt>`                     feed a copy of message `i` with altered crc / delta_tick
 * `c <i>`                                  print message `i` of the remembered list
 * `reset`                                  `DeltaReceiver::reset`
 
@@ -83,6 +84,15 @@ def step (s : Session) (toks : List String) : Session × String :=
       | some m => feed s m
       | none => (s, "bad-index")
     | _, _ => (s, "bad-index")
+  | ["pg", i, dcrc, ddt] =>
+    match parseNat i, parseInt dcrc, parseInt ddt, s.chunks with
+    | some i, some dcrc, some ddt, some ms =>
+      match ms[i]? with
+      | some (.empty t dt) => feed s (.empty t (wrap32 (dt + ddt)))
+      | some (.single t dt c d) => feed s (.single t (wrap32 (dt + ddt)) (wrap32 (c + dcrc)) d)
+      | some (.snap t dt n p c d) => feed s (.snap t (wrap32 (dt + ddt)) n p (wrap32 (c + dcrc)) d)
+      | none => (s, "bad-index")
+    | _, _, _, _ => (s, "bad-index")
   | ["c", i] =>
     match parseNat i, s.chunks with
     | some i, some ms =>
